@@ -549,6 +549,8 @@ type c12case struct {
 	K       int    `json:"k,omitempty"`
 	StartUs int    `json:"start_offset_us,omitempty"`
 	Answer  bool   `json:"peer_answers"`
+	// the address list comes from stdin (-f -) and the producer stalls after these lines
+	StalledStdin bool `json:"address_list_on_a_stalled_stdin,omitempty"`
 }
 
 func scenC12(run *vlab.Run, sx, tmp string) {
@@ -600,6 +602,22 @@ func scenC12(run *vlab.Run, sx, tmp string) {
 			c.When, c.K = "probe", total+1+rng.Intn(2*total) // somewhere in a later pass
 		}
 		c.Extra = []string{"--srcip", foreignSrcIP, "--rate", "4000/s"}
+		if k.kind == "tcp" && i%8 == 6 {
+			// -f - with a producer that stalls, and enough port ranges for several chunks
+			var items []string
+			for j := 0; j < 401; j++ {
+				items = append(items, fmt.Sprint(1000+j))
+			}
+			c.Ports, c.NRanges, c.Subnet = strings.Join(items, ","), 401, ""
+			c.Mode, c.StalledStdin = "addrfile-stdin", true
+			c.File = fmt.Sprintf("{\"ip\":\"%s\"}\n{\"ip\":\"%s\"}\n", ipS(base), ipS(base+1))
+			// only the first port's pass can make progress (2 addresses), then the scan waits for its producer:
+			// SIGINT at the first / second probe, or a moment after the producer stalled
+			c.When, c.K = "probe", 1+rng.Intn(2)
+			if rng.Intn(2) == 0 {
+				c.When, c.K = "stalled", 2
+			}
+		}
 		cases = append(cases, c)
 	}
 	for i, c := range cases {
@@ -617,7 +635,7 @@ func scenC12(run *vlab.Run, sx, tmp string) {
 		nTx := 0
 		sent := false
 		prng := rand.New(rand.NewSource(int64(i)))
-		spec := &CaseSpec{Args: args, Stdin: stdin, Setup: commonWorld("tap"), Timeout: 40 * time.Second,
+		spec := &CaseSpec{Args: args, Stdin: stdin, StdinStalls: c.StalledStdin, Setup: commonWorld("tap"), Timeout: 40 * time.Second,
 			OnStart: func(cr *CaseRun) {
 				if c.When == "start" {
 					time.Sleep(time.Duration(c.StartUs) * time.Microsecond)
@@ -633,7 +651,7 @@ func scenC12(run *vlab.Run, sx, tmp string) {
 				nTx++
 				k := nTx
 				fire := !sent && (c.When == "probe" && k == c.K)
-				late := !sent && c.When == "exit-delay" && k == total
+				late := !sent && (c.When == "exit-delay" && k == total || c.When == "stalled" && k == c.K)
 				if fire || late {
 					sent = true
 				}
@@ -663,7 +681,7 @@ func scenC12(run *vlab.Run, sx, tmp string) {
 		}
 		if res.TimedOut {
 			if res.Parked {
-				run.Violation("no-exit-after-sigint:"+c.When, fmt.Sprintf("sx did not exit after SIGINT (%s, k=%d): no CPU time, no frame for a second", c.When, c.K), map[string]interface{}{"case": desc, "goroutines": tailStr(res.Dump, 6000)})
+				run.Violation("no-exit-after-sigint:"+c.When, fmt.Sprintf("sx did not exit after SIGINT (%s, k=%d): no CPU time, no frame for a second", c.When, c.K), map[string]interface{}{"case": desc, "goroutines": tailStr(res.Dump, 60000)})
 			} else {
 				run.Inconclusive(fmt.Sprintf("still running 40 s after start: %+v", c))
 			}
@@ -685,6 +703,9 @@ func scenC12(run *vlab.Run, sx, tmp string) {
 				run.Violation("incomplete-record-after-sigint", fmt.Sprintf("stdout line %d of %d is not a complete JSON record: %.200q", k+1, len(res.Stdout), l), desc)
 				break
 			}
+		}
+		if delivered && c.StalledStdin {
+			run.Count("sigint_with_stalled_stdin", 1)
 		}
 		if delivered {
 			run.Count("sigints_delivered", 1)
